@@ -1137,16 +1137,42 @@ func c01Admission(c *Ctx) {
 	// an empty read is no read: bytes.Reader.Read answers io.EOF at the end of the input even for an empty
 	// buffer, so a zero-length field that happens to be the last thing in a message (the empty body of the last
 	// message of a container) would set the sticky error on input the encoder itself produced
-	if rf := c.fn("R01.V", load.TLPkg, "*Decoder", "read"); rf != nil && len(rf.Params) == 2 {
+	var readers []*ssa.Function
+	for f := range c.P.AllFunctions() {
+		if load.FuncPkgPath(f) == load.TLPkg && len(f.Blocks) > 0 && f.Signature.Recv() != nil && strings.HasSuffix(f.Signature.Recv().Type().String(), "tl.Decoder") {
+			readers = append(readers, f)
+		}
+	}
+	sort.Slice(readers, func(i, j int) bool { return readers[i].String() < readers[j].String() })
+	nReads := 0
+	for _, rf := range readers {
 		n := 0
 		for _, cs := range an.Calls(rf) {
-			if cs.Name != "(*bytes.Reader).Read" && !strings.HasSuffix(cs.Name, ").Read") {
+			if cs.Name != "(*bytes.Reader).Read" {
 				continue
 			}
 			n++
-			buf := rf.Params[1]
+			nReads++
+			args := an.CallArgs(cs.Common)
+			if len(args) < 2 {
+				continue
+			}
+			buf := args[1]
+			if ms, isMS := buf.(*ssa.MakeSlice); isMS {
+				if k, isK := an.ConstInt(ms.Len); isK && k > 0 {
+					r.Hold("R01.V", sprintf("admission:%s/zero-length-is-no-read#%d", rf.Name(), n), c.pos(cs.Pos()), "buffer of constant non-zero length")
+					continue
+				}
+			}
+			var sizeOf ssa.Value
+			if ms, isMS := buf.(*ssa.MakeSlice); isMS {
+				sizeOf = an.Unconv(ms.Len)
+			}
 			guarded := an.DominatingGuard(rf, cs.Instr, func(cd *an.Cond) int {
 				isLen := func(v ssa.Value) bool {
+					if sizeOf != nil && an.Unconv(v) == sizeOf {
+						return true // the size the buffer was made with
+					}
 					call, ok := v.(*ssa.Call)
 					return ok && an.CalleeName(call.Common()) == "builtin:len" && len(call.Call.Args) == 1 && call.Call.Args[0] == ssa.Value(buf)
 				}
@@ -1161,11 +1187,11 @@ func c01Admission(c *Ctx) {
 				}
 				return -1
 			})
-			r.Check(guarded, "R01.V", sprintf("admission:read/zero-length-is-no-read#%d", n), c.pos(cs.Pos()), "the Read of the underlying reader is issued only for a non-empty buffer (len(buf) != 0 on every path to it)")
+			r.Check(guarded, "R01.V", sprintf("admission:%s/zero-length-is-no-read#%d", rf.Name(), n), c.pos(cs.Pos()), "the Read of the underlying reader is issued only for a non-empty buffer (len(buf) != 0 on every path to it): a zero-length Read at the end of the input answers io.EOF")
 		}
-		if n == 0 {
-			r.Undecide("R01.V", "admission:read/zero-length-is-no-read", c.pos(rf.Pos()), "no Read call found in Decoder.read")
-		}
+	}
+	if nReads == 0 {
+		r.Undecide("R01.V", "admission:read/zero-length-is-no-read", "", "no (*bytes.Reader).Read call found in the methods of tl.Decoder")
 	}
 	type site struct {
 		recv, fn, key string
